@@ -73,7 +73,12 @@ def run(ctx, replay_case):
     hdr_f = [c for c in msgs_f if c.meta["field"] in (".tag", ".commandCode", ".commandSize")]
     for c in hdr_f[:12] + rnd.sample(msgs_f, min(len(msgs_f), 40 if ctx.tier == "quick" else 400)):
         base = canon.impl_events_via("binary", c.data, "Stream")
-        for front, cont in (("hex", c.data.hex().encode()), ("pcapng", canon.make_pcapng([c.data])), ("auto", c.data),
+        import re as _re
+        # (raw bytes through `auto` only when auto takes them for binary: two leading bytes that are hex digits are read as hex
+        # text, 0a 0d as a pcapng capture - c15_auto; a faulted tag such as 0x4443 = "DC" is such a start)
+        raw_is_binary = len(c.data) >= 2 and c.data[:2] != b"\x0a\x0d" and not _re.match(b"[0-9a-fA-F]{2}", c.data[:2])
+        for front, cont in (("hex", c.data.hex().encode()), ("pcapng", canon.make_pcapng([c.data])),
+                            ("auto", c.data) if raw_is_binary else ("auto", c.data.hex().encode()),
                             ("auto", canon.make_pcapng([c.data]))):
             got = canon.impl_events_via(front, cont, "Stream")
             nfront += 1
